@@ -400,6 +400,199 @@ func TestCheckMatching(t *testing.T) {
 	})
 }
 
+// ---- matching of documents that have a history -----------------------------------------------
+
+type histEdit struct {
+	Side  int    `json:"side"` // 0 left, 1 right
+	Kind  string `json:"kind"` // marry | add-child | set-husband | set-wife | add-name | add-birth | drop-uid | add-uid
+	A     int    `json:"a"`
+	B     int    `json:"b"`
+	C     int    `json:"c"`
+	Touch int    `json:"touch"` // which lazily cached view is read first after the edit
+}
+
+type histCase struct {
+	Case  matchCase  `json:"case"`
+	Edits []histEdit `json:"edits"`
+}
+
+func matchingOf(left, right gedcom.IndividualNodes, o *gedcom.IndividualNodesCompareOptions) string {
+	li, ri := map[*gedcom.IndividualNode]int{}, map[*gedcom.IndividualNode]int{}
+	for k, i := range left {
+		li[i] = k
+	}
+	for k, i := range right {
+		ri[i] = k
+	}
+	var out []string
+	for _, r := range left.Compare(right, o) {
+		l, rr, sim := "-", "-", ""
+		if r.Left != nil {
+			l = fmt.Sprintf("%d:%s", li[r.Left], r.Left.Pointer())
+		}
+		if r.Right != nil {
+			rr = fmt.Sprintf("%d:%s", ri[r.Right], r.Right.Pointer())
+		}
+		if r.Left != nil && r.Right != nil && r.Similarity != nil {
+			sim = fmt.Sprintf(" %v", r.Similarity.WeightedSimilarity())
+		}
+		out = append(out, l+" ~ "+rr+sim)
+	}
+	sort.Strings(out)
+	return strings.Join(out, "\n")
+}
+
+// checkHistory: which individuals are paired is a function of what the two documents say,
+// not of what was read from them before: documents that were compared, then edited through
+// the public API (reading one or another cached view first), are matched exactly like the
+// same two texts decoded from nothing. Jobs is 1, so that ties are broken the same way.
+func checkHistory(c histCase) (fl *harness.Failure, applied int) {
+	defer func() {
+		if p := recover(); p != nil {
+			fl = harness.Failf("panic", "panic: %v", p)
+		}
+	}()
+	docs := []*gedcom.Document{c.Case.Left.Doc(), c.Case.Right.Doc()}
+	warm(docs[0])
+	warm(docs[1])
+	_ = matchingOf(docs[0].Individuals(), docs[1].Individuals(), options(c.Case, 1))
+	for n, e := range c.Edits {
+		doc := docs[e.Side%2]
+		inds, fams := doc.Individuals(), doc.Families()
+		if len(inds) == 0 {
+			continue
+		}
+		x, y, z := inds[e.A%len(inds)], inds[e.B%len(inds)], inds[e.C%len(inds)]
+		switch e.Kind {
+		case "marry":
+			doc.AddFamilyWithHusbandAndWife(fmt.Sprintf("FN%d", n), x, y)
+		case "add-child":
+			if len(fams) == 0 {
+				continue
+			}
+			fams[e.B%len(fams)].AddChild(z)
+		case "set-husband":
+			if len(fams) == 0 {
+				continue
+			}
+			fams[e.B%len(fams)].SetHusband(x)
+		case "set-wife":
+			if len(fams) == 0 {
+				continue
+			}
+			fams[e.B%len(fams)].SetWife(x)
+		case "add-name":
+			x.AddName(fmt.Sprintf("Added%d /Later/", e.B))
+		case "add-birth":
+			x.AddBirthDate(fmt.Sprintf("%d", 1850+e.B%60))
+		case "drop-uid":
+			ids := gedcom.NodesWithTag(x, gedcom.UnofficialTagUniqueID)
+			if len(ids) == 0 {
+				continue
+			}
+			x.DeleteNode(ids[e.B%len(ids)])
+		case "add-uid":
+			// the identifier of somebody on the other side, when there is one
+			other := docs[(e.Side+1)%2].Individuals()
+			if len(other) == 0 {
+				continue
+			}
+			ids := gedcom.NodesWithTag(other[e.B%len(other)], gedcom.UnofficialTagUniqueID)
+			if len(ids) == 0 {
+				continue
+			}
+			x.AddNode(gedcom.NewNode(gedcom.UnofficialTagUniqueID, ids[0].Value(), ""))
+		default:
+			continue
+		}
+		applied++
+		// what is asked for first after an edit differs from caller to caller
+		for _, i := range inds {
+			switch e.Touch % 5 {
+			case 0:
+				_ = i.UniqueIdentifiers()
+			case 1:
+				_ = i.Families()
+			case 2:
+				_ = i.Spouses()
+			case 3:
+				_ = i.Parents()
+			}
+		}
+	}
+	if applied == 0 {
+		return nil, 0
+	}
+	live := matchingOf(docs[0].Individuals(), docs[1].Individuals(), options(c.Case, 1))
+	lt, rtx := docs[0].String(), docs[1].String()
+	fl0, err0 := gedcom.NewDocumentFromString(lt)
+	fr0, err1 := gedcom.NewDocumentFromString(rtx)
+	if err0 != nil || err1 != nil {
+		return nil, 0
+	}
+	if want := matchingOf(fl0.Individuals(), fr0.Individuals(), options(c.Case, 1)); live != want {
+		// the statement fixes the pairs only when no two candidate pairs tie and no identifier
+		// or pointer is duplicated (as in the differential of the first sub-check)
+		fl, fr := fl0.Individuals(), fr0.Individuals()
+		so := options(c.Case, 1).SimilarityOptions
+		scores := map[float64]int{}
+		for _, a := range fl {
+			for _, b := range fr {
+				if sc := a.SurroundingSimilarity(b, so, false).WeightedSimilarity(); sc >= c.Case.MinWS {
+					scores[sc]++
+				}
+			}
+		}
+		for _, n := range scores {
+			if n > 1 {
+				return nil, -applied
+			}
+		}
+		if dupIdentifiers(fl) || dupIdentifiers(fr) || dupPointers(fl) || dupPointers(fr) || multiIdentifiers(fl) || multiIdentifiers(fr) {
+			return nil, -applied
+		}
+		return harness.Failf("history-changes-matching", "two documents that were compared and then edited through the API (%v) are matched as\n%s\nthe same two texts decoded from nothing are matched as\n%s\nleft:\n%s\nright:\n%s", c.Edits, live, want, lt, rtx), applied
+	}
+	return nil, applied
+}
+
+func TestCheckMatchingHistory(t *testing.T) {
+	s := harness.NewSub("matching-after-history",
+		"the document pairs of matching-validity-and-differential, decoded, every lazily cached view read and the two lists compared once; then 1..4 edits through the public API on either side (AddFamilyWithHusbandAndWife, AddChild, SetHusband, SetWife, AddName, AddBirthDate, a _UID line deleted, the _UID of somebody on the other side added), after each of which one of UniqueIdentifiers / Families / Spouses / Parents of every individual (or nothing) is read first; oracle: Compare (Jobs 1) of the live lists gives exactly the pairs and weighted similarities that it gives for the same two texts decoded from nothing; non-trivial = an edit was applied and both sides have >= 2 people")
+	s.Rapid(t, harness.Share(harness.Pick(4000, 150000)), 113, func(rt *rapid.T) {
+		c := histCase{Case: genCase(rt)}
+		for k := rapid.IntRange(1, 4).Draw(rt, "nedits"); k > 0; k-- {
+			c.Edits = append(c.Edits, histEdit{Side: rapid.IntRange(0, 1).Draw(rt, "side"),
+				Kind: rapid.SampledFrom([]string{"marry", "add-child", "set-husband", "set-wife", "add-name", "add-birth", "drop-uid", "drop-uid", "add-uid", "add-uid"}).Draw(rt, "kind"),
+				A:    rapid.IntRange(0, 9).Draw(rt, "a"), B: rapid.IntRange(0, 9).Draw(rt, "b"), C: rapid.IntRange(0, 9).Draw(rt, "c"), Touch: rapid.IntRange(0, 4).Draw(rt, "touch")})
+		}
+		fl, applied := checkHistory(c)
+		cls := fmt.Sprintf("edits:%d", applied)
+		if applied < 0 {
+			cls = "differs-but-pairs-not-fixed-by-the-statement(ties-or-duplicates)"
+		}
+		nt := applied > 0 && len(c.Case.Left.People) >= 2 && len(c.Case.Right.People) >= 2
+		s.Eval(harness.JSON(c), nt, cls)
+		if nt {
+			s.MaybeSample(c)
+		}
+		if fl != nil && s.Report(c, fl) {
+			rt.Fatalf("%s: %s", fl.Sig, fl.Msg)
+		}
+	})
+}
+
+func init() {
+	harness.RegisterReplay("matching-after-history", func(raw json.RawMessage) *harness.Failure {
+		var c histCase
+		if err := json.Unmarshal(raw, &c); err != nil {
+			return harness.Failf("bad-replay", "%v", err)
+		}
+		fl, _ := checkHistory(c)
+		return fl
+	})
+}
+
 // ---- race detector ---------------------------------------------------------------
 
 var raceFn = regexp.MustCompile(`(?m)^\s+(?:github\.com/elliotchance/gedcom/v39|main)(\S+?)\(\)\s*$`)
